@@ -216,7 +216,7 @@ def build_driver(name, extract_v, ml_modules, deps_vo, timeout=600):
     ocaml/<name>.ml against them.  Rebuilt only when an input is newer than the binary."""
     binp = os.path.join(BUILD, name)
     srcs = [os.path.join(COQ, "Extract", extract_v + ".v"), os.path.join(VERIF, "ocaml", name + ".ml"),
-            os.path.join(VERIF, "ocaml", "sexp.ml")] + [os.path.join(COQ, d) for d in deps_vo]
+            os.path.join(VERIF, "ocaml", "sexp.ml"), os.path.join(VERIF, "ocaml", "conv.ml")] + [os.path.join(COQ, d) for d in deps_vo]
     with BuildLock():
         try:
             bt = os.path.getmtime(binp)
@@ -228,8 +228,12 @@ def build_driver(name, extract_v, ml_modules, deps_vo, timeout=600):
                      cwd=EXTRACT, timeout=timeout)
         if rc != 0:
             return False, out
-        for f in ("sexp.ml", name + ".ml"):
-            write_if_changed(os.path.join(EXTRACT, f), open(os.path.join(VERIF, "ocaml", f)).read())
+        write_if_changed(os.path.join(EXTRACT, "sexp.ml"), open(os.path.join(VERIF, "ocaml", "sexp.ml")).read())
+        body = open(os.path.join(VERIF, "ocaml", name + ".ml")).read()
+        if name != "gcdriver":
+            # the driver body is compiled after `open <extracted module>` and the shared conversions
+            body = "module ZZ = Z\nopen %s\n" % ml_modules[-1].capitalize() + open(os.path.join(VERIF, "ocaml", "conv.ml")).read() + body
+        write_if_changed(os.path.join(EXTRACT, name + ".ml"), body)
         files = []
         for m in ml_modules:
             files += [m + ".mli", m + ".ml"]
